@@ -579,6 +579,49 @@ func classes() []class {
 		atomic.StoreInt32(&writersDone, 1)
 		sg.Wait()
 	})
+	// valid requests again, overlapping: batch writes in flight on a dataset at the moment it is deleted (its
+	// partitions are unloaded while proposals wait for their outcome)
+	add("any-order:batch-writes-overlapping-the-delete-of-their-dataset", func(e *env) {
+		for round := 0; round < 10 && e.s.Alive(); round++ {
+			c0, f0 := e.ctx()
+			d, err := e.dm.Create(c0, &pb.Dataset{Dimension: 4, PartitionCount: 2, ReplicationFactor: 1})
+			f0()
+			if err != nil {
+				continue
+			}
+			var wg sync.WaitGroup
+			var stop int32
+			for w := 0; w < 8; w++ {
+				wg.Add(1)
+				go func(w int) {
+					defer wg.Done()
+					for n := 0; atomic.LoadInt32(&stop) == 0 && n < 400 && e.s.Alive(); n++ {
+						var items []*pb.BatchItem
+						for i := 0; i < 10; i++ {
+							items = append(items, &pb.BatchItem{Id: hx.Id(500000 + round*100000 + w*10000 + n*10 + i).Bytes(), Value: vec(float32(i), float32(n), 1, 2)})
+						}
+						c, f := context.WithTimeout(context.Background(), 10*time.Second)
+						switch n % 3 {
+						case 0:
+							e.data.BatchInsert(c, &pb.BatchRequest{DatasetId: d.Id, Items: items})
+						case 1:
+							e.data.BatchUpdate(c, &pb.BatchRequest{DatasetId: d.Id, Items: items})
+						default:
+							e.data.BatchRemove(c, &pb.BatchRequest{DatasetId: d.Id, Items: items})
+						}
+						f()
+					}
+				}(w)
+			}
+			time.Sleep(time.Duration(20+round*7) * time.Millisecond)
+			c1, f1 := e.ctx()
+			e.dm.Delete(c1, &pb.UUIDRequest{Id: d.Id})
+			f1()
+			time.Sleep(30 * time.Millisecond)
+			atomic.StoreInt32(&stop, 1)
+			wg.Wait()
+		}
+	})
 	// nothing hostile at all: the baseline of the rig
 	add("baseline:valid-requests-only", func(e *env) {
 		c, f := e.ctx()
